@@ -23,3 +23,19 @@ claim('C04',
       'Theorems C04_parse_only_if, C04_unverifiable_flagged: a reply is parsed unflagged only if its Response Authenticator verifies under the request authenticator and secret and every Message-Authenticator verifies with the request authenticator substituted; acceptance reduces to digest equalities. Correspondence incl. every single-bit corruption of the first 64 bytes of valid replies.',
       'Modelled: buf2radmsg with request authenticator (coq/Model/Packet.v). Slot-state conditions of replyh are covered by the pipeline model.',
       'Coq soundness proof of reply parsing + differential run on bit-flipped replies', '5/C04')
+claim('C01',
+      'Theorem C01_rewrite_untouched: for every regex engine (arbitrary oracle), every rewrite block and every attribute list, attributes named by no rule come out of dorewrite byte-identical, exactly once and in order, followed only by configured supplement/add attributes. Correspondence: the real dorewrite on random blocks parsed by the real configuration parser, and the whole request pipeline (radsrv: rewriteIn, User-Name rewrite, CHAP-Challenge, authenticator, User-Password, rewriteOut, Message-Authenticator, TTL, sendrq) against the extracted Proxy model on generated configurations and histories.',
+      'Modelled: rewrite.c engine (coq/Model/Rewrite.v) and radsrv/sendrq (coq/Model/Proxy.v). The pipeline-level statement (exactly one Enq, attribute composition) is checked by correspondence with the model, not yet proved as a theorem over Proxy.radsrv; regex answers are an oracle (what glibc returned).',
+      'Coq proof of the rewrite engine filter/map/append structure + differential run of the real request pipeline against the extracted model', '5/C01')
+claim('C02',
+      'Correspondence of the real replyh/sendreply (driven after real radsrv and real clientwr threads stepped deterministically) with the extracted Proxy model on generated multi-client histories; runtime specs on the implementation output: reply goes to the originating client, carries its identifier and a Response Authenticator over its original Request Authenticator, User-Name restored, hidden attributes decrypt to the server plaintext. The codec and rewrite theorems (C04/C06/C01) cover the stages; the history-level theorem C02_to_originator is not yet proved (partial).',
+      'Modelled: replyh, sendreply, freerqoutdata (coq/Model/Proxy.v). Partial: the state-machine invariant (slot -> request -> originating client) is validated by differential testing only.',
+      'differential run of real replyh vs extracted Gallina model + extracted RFC verifiers on the delivered packets; stage theorems from C01/C03/C04/C06', '5/C02')
+claim('C14',
+      'Theorems C14_prefix (prefixmatch = equality of the leading len bits, via complete vm_compute sweeps of the mask table read from hostport.c lifted by induction), C14_match (host-list membership incl. IPv4-mapped unwrapping, host//32//128 exactness, port for UDP servers), C14_first (first matching block of the transport in configuration order, none => none). Correspondence with the real find_clconf/find_srvconf on host lists parsed by the real parser, sources at every first-differing-bit position (thorough: all prefix lengths 0..32 / 0..128).',
+      'Modelled: prefixmatch, _internal_addressmatches, find_conf (coq/Model/Addr.v). Not modelled: the transports\' calls (radudpget, tcpservernew, tlsservernew, dtlslistener) and DNS resolution of non-numeric hosts.',
+      'Coq bit-level proof (finite sweep + induction) + differential run against real find_clconf/find_srvconf', '5/C14')
+claim('C16',
+      'Theorems C16_indep (for every stream and every data-only delivery schedule the packets handed over are exactly frames(stream): independent of segmentation), C16_prefix (for every schedule incl. timeouts/errors/EOF and every handler behaviour the packets handed over are a prefix of frames(stream): whole packets only, nothing after a bad length), C16_idle_at_boundary. Correspondence: the REAL reader loops tcpserverrd/tcpclientrd/tlsserverrd/tlsclientrd run over a scripted poll/read/SSL_read.',
+      'Modelled: tcpreadtimeout, radtcpget, sslreadtimeout, radtlsget and the four reader loops (coq/Model/Frame.v). Assumed: read/SSL_read return 1..n bytes in order. DTLS not modelled.',
+      'Coq induction over arbitrary delivery schedules + differential run of the real reader loops over scripted sockets', '5/C16')
